@@ -61,6 +61,7 @@ type Spec struct {
 	RespawnKilled     bool   `json:"respawnKilled,omitempty"`    // on a child's OnKilled (while running) respawn it under the same name, once per name
 	RespawnAlways     bool   `json:"respawnAlways,omitempty"`    // with RespawnKilled: every time, not once per name
 	LateSpawn         int    `json:"lateSpawn,omitempty"`        // while terminating: on a child's OnKilled spawn a fresh child "lateN" (at most this many times)
+	AskTimeout        int64  `json:"askTimeout,omitempty"`       // the actor's own default Ask timeout (ns), 0 = inherit the system's
 	FailDyingOnChild  int    `json:"failDyingOnChild,omitempty"` // panic on the first n OnKilled of children that arrive while this actor is itself terminating
 }
 
@@ -841,6 +842,9 @@ func (w *World) spawn(ctx spawner, parentName string, spec Spec) (vivid.ActorRef
 	sh := &probeShared{spec: spec}
 	first := w.newProbe(sh)
 	opts := []vivid.ActorOption{vivid.WithActorName(spec.Name)}
+	if spec.AskTimeout > 0 {
+		opts = append(opts, vivid.WithActorDefaultAskTimeout(time.Duration(spec.AskTimeout)))
+	}
 	if spec.Provider {
 		opts = append(opts, vivid.WithActorProvider(vivid.ActorProviderFN(func() vivid.Actor { return w.newProbe(sh) })))
 	}
